@@ -22,7 +22,7 @@ import (
 type Suite struct {
 	Gen      func(rng *Rng, tier string, stat func(string)) []string
 	Run      func(kv map[string]string) string
-	Parallel int // number of cases run concurrently (default 1)
+	Parallel int           // number of cases run concurrently (default 1)
 	Timeout  time.Duration // watchdog per case (default 90 s)
 }
 
